@@ -27,6 +27,9 @@ from .common import VERIF, REPO, DEPS, PY, jsonable, setup_paths
 
 KNOWN_FILE = os.path.join(VERIF, 'known_findings.json')
 EVIDENCE_DIR = os.path.join(VERIF, 'evidence')
+if os.environ.get('VERIF_REPO') and os.path.realpath(os.environ['VERIF_REPO']) != os.path.realpath('/repo'):
+    # a run against a scratch copy (self-test with a seeded change): its evidence never replaces that of /repo
+    EVIDENCE_DIR = os.path.join(VERIF, '.scratch', 'evidence')
 REPLAY_DIR = os.path.join(VERIF, 'replays')
 EVIDENCE_SCHEMA = '/root/.vp/EVIDENCE.schema.json'
 JOBS = int(os.environ.get('VERIF_JOBS', '16'))
